@@ -53,6 +53,18 @@ CHECKS.update({
             "base depth 3+2 (quick) / 4+3 with continuation depth 2 and rejected pairs (thorough)", E1, "DESIGN.md 3 C17"),
 })
 
+CHECKS.update({
+    "C01": ("E3", "model_checking",
+            "ALL update sequences (which subsumes every permutation and duplication of every multiset) over identities {three generations of one address, another address} x incarnations {0,1,2} and {0,1,65534,65535} x {Alive,Suspect,Down} up to length 4 (5-6 on sub-alphabets / thorough), applied through apply_many one by one and as one batch, with and without broadcasting; after EVERY prefix the public view must equal an order-independent reference join of the set of updates delivered (so every step is monotone and the result is order/multiplicity insensitive), and re-applying the instance's own full state must change nothing. State exchange: all ordered pairs of states reachable in <=3 updates (incl. records about the partner and the own address) x two exchange protocols must agree on every third-party address.",
+            "bounded length and alphabet; win_addr_conflict is a strict total order per address; incarnation next to Down ignored", E3, "DESIGN.md 3 C01"),
+    "C14": ("E3", "model_checking",
+            "Start states: all histories of <=5 (thorough 7) operations (join, member down, forget, probe round) under every RNG answer (insertion positions, shuffles). Stable phase: breadth-first search to FIXPOINT over the finite product (record order, cursor, rounds-since-pinged per member), each transition one real probe round (probe timer, matching Ack, indirect timer), branching on every shuffle outcome: all infinite stable runs are covered. Each round pings exactly one active member, never a Down one or itself; no member goes 2n-1 rounds without a Ping (observed maximum is exactly 2n-2).",
+            "n <= 4 active, <= 1 Down record (quick) / n <= 5, <= 2 Down (thorough); product state omits probe number and backlog (assumed irrelevant to member choice)", E3, "DESIGN.md 3 C14"),
+    "C20": ("E3", "model_checking",
+            "Header/Member values over every Message variant x identities (integers at 2^7, 2^14, 2^32, 2^64 boundaries; strings of length 0, 1, 127, 128) x incarnations and probe numbers at the varint boundaries of both formats (about 75 000 values): round trip consuming exactly the encoded length with three different tails; encoding into EVERY insufficient buffer size returns an error and never writes past the limit; decoding EVERY truncation, byte substitutions at every position, and all byte strings of length <=2 (<=3 thorough) returns a value or an error without panicking or over-reading; postcard and bincode, integer and String identities. (Mid-feed encode failures keeping datagrams well-formed: C07's size sweep.)",
+            "inputs on which a length-limited bincode decoder reports LimitExceeded are decoded only in a child process (known finding F11)", E3, "DESIGN.md 3 C20"),
+})
+
 PENDING = {}  # property -> reason; filled below for everything not in CHECKS
 
 def main():
